@@ -14,7 +14,7 @@ ASSUMPTIONS = ["rich is not installed on the 3.7-3.10 interpreters, so the plain
 TIMEOUT = {"quick": 1200, "thorough": 7200}
 
 FLAGS = ["--json", "--no-normalize", "--dis", "--dis-after", "--source"]
-MODULES = ["colorsys", "keyword", "this", "json.scanner", "bisect", "sched"]
+MODULES = ["colorsys", "keyword", "this", "json.scanner", "bisect", "sched", "json", "json.tool", "email.mime.text", "xml.dom", "__future__", "antigravity"]
 PROGRAMS = [
     "x = 1\n", "", "\n", "a", "def f(a, *b, c=1, **d):\n    'doc'\n    return a\n", "class A:\n    def m(self): return __class__\n",
     "f(\n1)\n", "x = [0.0, -0.0, 1e999, 1e999-1e999, 2**70, 1j, b'a', ..., None, (1, (2.0, True))]\n",
